@@ -40,6 +40,7 @@ def run_suite(which, workers=8, select=None, timeout=3000):
 
 def feed(res, prop, out, needed_counter):
     """Merge a suite run into a vk.core.Result for property `prop`."""
+    res.count("suite:runs")
     for k, v in out["counts"].items():
         res.count("suite:" + k, v)
     n = out["counts"].get(needed_counter, 0)
@@ -50,6 +51,17 @@ def feed(res, prop, out, needed_counter):
     for v in out["violations"]:
         if v["property"] == prop:
             res.violation("suite:" + v["mechanism"], v["summary"] + " [in " + v.get("test", "") + "]", {"suite": True, "test": v.get("test", ""), "tier": "thorough", "case_key": None})
+
+
+def thresholds(counters, needed_counter, minimum=1):
+    """Reasons (for a check's thresholds()) why a run that included the suite is inconclusive: the universal monitor judged
+    fewer than `minimum` calls. Runs without the suite (quick tier, replay of a generated case) are not concerned."""
+    if not counters.get("suite:runs"):
+        return []
+    n = counters.get("suite:" + needed_counter, 0)
+    if n < minimum:
+        return [f"the repository's test-suite ran under the universal monitor but only {n} < {minimum} calls were judged ({needed_counter})"]
+    return []
 
 
 def replay_suite(res, prop, which, needed_counter, witness):
